@@ -35,7 +35,7 @@ RULE = ("one case = one generated multi-player game history (1-4 players, 1-3 ba
 PROBES = ["turn_change", "restore_with_progress", "extra_ball", "early_end_game", "new_game", "players_3plus",
           "dispatch_live", "dispatch_transient", "dispatch_dead_in_game", "dispatch_no_game", "hook_post",
           "hold_window", "lb_complete", "lb_timeout", "dl_fired", "timer_tick", "m2_restart_next_ball",
-          "histories_differ", "may_applied", "may_skipped", "op_on_timer_deadline"]
+          "histories_differ", "may_applied", "may_skipped", "op_on_timer_deadline", "mode_started_while_ball_ending", "mode_restarted_before_cleanup"]
 REAL = ["mpf.core.player.Player", "mpf.modes.game.code.game.Game", "mpf.core.mode.Mode / ModeController",
         "mpf.devices.logic_blocks (Counter, Accrual, Sequence)", "mpf.devices.shot / shot_group / shot_profile",
         "mpf.devices.achievement", "mpf.devices.timer", "mpf.core.enable_disable_mixin",
@@ -43,7 +43,8 @@ REAL = ["mpf.core.player.Player", "mpf.modes.game.code.game.Game", "mpf.core.mod
 STUBS = ["event loop (SimLoop: virtual time, stalls, tie order)", "clock (SimClock)", "virtual hardware platform",
          "in-memory data manager", "playfield.add_ball (no ball devices: balls are ball_drain events)"]
 ASSUMPTIONS = ["a ball ends when a `ball_drain` event reports the ball (no ball devices, as in MpfFakeGameTestCase)",
-               "variable_player entries never name another player explicitly (player: N is an intended cross-player write)",
+               "a variable_player entry that names its player (`player: 1`, variable `gift`) is an intended cross-player "
+               "write: it is modelled as such and exempt from the snapshot oracle",
                "debounce windows (multiple_hit_window, delay_switch) are not configured: they are wall-clock features",
                "timer tick instants are not checked here (C13 does); only which player's variable they change"]
 STATE_ABSTRACTION = "(phase of the game life cycle, #players, current player, class of last dispatch, progress bucket)"
@@ -80,14 +81,28 @@ FAMILIES = [
                 "ev_ach1_select", "ev_ach1_unselect", "ev_ach2_start", "ev_ach2_stop", "ev_ach2_complete",
                 "ev_ach2_enable", "ev_ach2_enable", "ev_ach2_disable"]),
     ("timer", 2, ["ev_t1_start", "ev_t1_start", "ev_t1_stop", "ev_t1_add", "ev_t1_jump"]),
-    ("vars", 4, ["ev_score", "ev_score", "ev_float", "ev_str1", "ev_str2", "ev_int_set", "ev_int_add", "ev_new_var", "ev_eb"]),
+    ("vars", 4, ["ev_score", "ev_score", "ev_float", "ev_str1", "ev_str2", "ev_int_set", "ev_int_add", "ev_new_var", "ev_eb", "ev_gift"]),
     ("m2", 3, ["ev_m2_start", "ev_m2_start", "ev_m2_stop", "ev_c_m2", "ev_c_m2", "ev_m2_str", "ev_score"]),
+]
+# short scripted progressions (a random prefix is played): they get blocks completed / profiles advanced so that
+# the players' histories differ in the interesting places
+COMBOS = [
+    ["ev_q1_s0", "ev_q1_s1", "ev_q1_s2"],
+    ["ev_c_down_enable", "ev_c_down", "ev_c_down", "ev_c_down"],
+    ["ev_a1_s0", "ev_a1_s1", "ev_a1_s2"],
+    ["ev_c_up", "ev_c_up", "ev_c_up"],
+    ["sw:s_sh_a", "sw:s_sh_a", "sw:s_sh_a"],
+    ["ev_ach1_start", "ev_ach1_complete"],
+    ["ev_ach2_enable", "ev_ach2_start", "ev_ach2_stop"],
+    ["ev_sh_c_enable", "sw:s_sh_c", "ev_sg_rotate"],
+    ["ev_t1_start", "ev_t1_add", "ev_t1_add", "ev_t1_add"],
+    ["ev_m2_start", "ev_c_m2", "ev_c_m2"],
 ]
 DTS = [0.0, 0.0, 0.001, 0.01, 0.05, 0.1, 0.25, 0.3, 0.7, 1.5]
 
 
-def _gen_stim(ch):
-    fam = ch.weighted("fam", [(i, f[1]) for i, f in enumerate(FAMILIES)])
+def _gen_stim(ch, focus=()):
+    fam = ch.weighted("fam", [(i, f[1] * (5 if i in focus else 1)) for i, f in enumerate(FAMILIES)])
     return ch.pick("ev.%s" % FAMILIES[fam][0], FAMILIES[fam][2])
 
 
@@ -118,6 +133,8 @@ def plan(ch, tier):
         for i, (ev, pr) in enumerate(HOLD_POINTS):
             if ch.flag("cfg.hold%d" % i, 0.12):
                 cfg["holds"].append([ev, pr, ch.pick("cfg.hold_ms", [10, 100, 300, 1000])])
+    # swarm over the workload too: a few device families get most of the events of this run
+    focus = sorted(set(ch.choice("focus", len(FAMILIES)) for _ in range(3)))
     ops = [{"op": "start", "when": ["rel", 0.05]}]
     ngames = 1 + (1 if ch.flag("second_game", 0.45) else 0)
     for g in range(ngames):
@@ -131,12 +148,22 @@ def plan(ch, tier):
             n = ch.choice("burst", 11)
             burst = []
             for _ in range(n):
-                k = ch.weighted("kind", [("ev", 20), ("arm", 0 if plain else 3), ("wait", 1)])
+                k = ch.weighted("kind", [("ev", 20), ("arm", 0 if plain else 3), ("wait", 1), ("combo", 3)])
+                if k == "combo":
+                    c = ch.pick("combo", COMBOS)
+                    for nm in c[:1 + ch.choice("combo_len", len(c))]:
+                        burst.append({"op": "ev", "name": nm, "when": ["rel", ch.pick("combo_dt", [0.0, 0.01, 0.05])]})
+                    continue
                 if k == "ev":
-                    burst.append({"op": "ev", "name": _gen_stim(ch), "when": _gen_when(ch)})
+                    prev = [b for b in burst if b["op"] == "ev"]
+                    if prev and ch.flag("repeat", 0.3):
+                        nm = prev[-1]["name"]       # hammer on the same device: that is how blocks get completed
+                    else:
+                        nm = _gen_stim(ch, focus)
+                    burst.append({"op": "ev", "name": nm, "when": _gen_when(ch)})
                 elif k == "arm":
                     burst.append({"op": "arm", "hook": ch.pick("hook", HOOKABLE), "prio": ch.pick("hprio", ["hi", "lo"]),
-                                  "events": [_gen_stim(ch) for _ in range(1 + ch.choice("nhook", 3))],
+                                  "events": [_gen_stim(ch, focus) for _ in range(1 + ch.choice("nhook", 3))],
                                   "when": ["rel", 0.0]})
                 else:
                     burst.append({"op": "wait", "when": ["rel", ch.pick("wait", [0.3, 1.0, 2.2])]})
@@ -151,7 +178,7 @@ def plan(ch, tier):
                 ops.append({"op": "drain", "when": _gen_when(ch)})
         # a few events with no ball in play / no game
         for _ in range(ch.choice("tail", 4)):
-            ops.append({"op": "ev", "name": _gen_stim(ch), "when": _gen_when(ch)})
+            ops.append({"op": "ev", "name": _gen_stim(ch, focus), "when": _gen_when(ch)})
     return {"knobs": knobs, "cfg": cfg, "ops": ops}
 
 
@@ -192,6 +219,10 @@ def on_crash(ctx, crash):
         return ("timeout_leak", "logic_block_timeout fired with no player loaded (crash)",
                 "a logic block timeout armed during a player's ball fired after the mode was unloaded: %s" % exc)
     if "is not supposed to run outside of game" in tb:
+        if ctx.info.get("late_start"):
+            return ("binding", "%s was started while the ball was ending and outlives the game" % ctx.info["late_start"],
+                    "a game mode started after ball_will_end was not stopped by ball end and was still active when "
+                    "the game stopped: %s" % exc)
         return ("binding", "game mode still running at game end",
                 "a game mode survived ball end and was still active when the game stopped: %s" % exc)
     return None
@@ -230,10 +261,16 @@ class Harness:
         self.game_no = 0
         self.phase = "idle"
         self.turns = 0
+        self.turns_in_game = 0
         self.last_turn_player = None
         self.progress_by_player = {}
         self.idx = 0
         self.done = False
+        self.end_m2 = {}             # player -> was m2 live when this player's last ball began to end (None: unclear)
+        self.m2_touch = {}           # player -> m2 start/stop events dispatched while that player was up since then
+        self.reload_race = {}        # mode -> it was started again before the clean-up of its previous stop ran
+        self.ball_phase = "none"     # "ending" from ball_will_end until the next ball_will_start
+        self.late_start = {}         # mode -> it was started while the ball was ending (and is still loaded)
 
     # ------------------------------------------------------------------ boot
     def run(self):
@@ -365,6 +402,17 @@ class Harness:
         self.ctx.log("load", name, num, t=self.sim.now)
         if num is None:
             self.bad("binding", "%s loaded without a player" % name, "game mode %s loaded its devices with player None" % name)
+        self.late_start[name] = self.ball_phase == "ending"
+        self.reload_race[name] = self.dev["attached"][name] is not None
+        if self.reload_race[name]:
+            self.ctx.probe("mode_restarted_before_cleanup")
+            self.bad("binding", "%s was restarted before the clean-up of its previous stop and runs without its devices" % name,
+                     "game mode %s was started between Mode._stopped and _mode_stopped_callback of its previous run "
+                     "(devices loaded twice for player %r, then removed by the stale clean-up: double handlers first, "
+                     "no devices afterwards)" % (name, num))
+        if self.late_start[name]:
+            self.ctx.info["late_start"] = name
+            self.ctx.probe("mode_started_while_ball_ending")
         emits = []
         x = self.x_for(num, emits)
         if name == "m1" and self.progress_of(num):
@@ -390,6 +438,7 @@ class Harness:
                 self.emit_exp[e] = self.emit_exp.get(e, 0) + 1
                 if e.endswith("_complete") and e.startswith("logicblock"):
                     self.ctx.probe("lb_complete")
+                    self.ctx.probe("complete_" + e[11:-9])
 
     # every posted event passes here synchronously (before it is queued)
     def on_post(self, t, name, kwargs):
@@ -513,7 +562,14 @@ class Harness:
         now = self.sim.now
         pend = sorted(self.dev["dl"], key=lambda d: d["deadline"])
         possible = [d for d in pend if d["deadline"] <= now + 1e-9]
-        must = [d for d in possible if d["must"] and d["deadline"] < now - 1e-9]
+        # timers that became due during an injected stall run in one batch at the landing instant, and a delay
+        # callback flushes the event queue itself: inside that batch only deadlines before the nominal wake-up
+        # time have certainly been processed
+        safe = now
+        sl = self.sim.loop.stall_log
+        if sl and abs(sl[-1][1] - now) <= 1e-9:
+            safe = min(now, sl[-1][0])
+        must = [d for d in possible if d["must"] and d["deadline"] < safe - 1e-9]
         k = st.value - sh[0]
         if k > len(possible) or k < 0:
             self.bad("delayed_leak", "c_dl progressed without an event of this player's ball",
@@ -535,6 +591,8 @@ class Harness:
             return
         self.cur = {"name": name, "cls": {mn: self.mode_class(mn) for mn in MODES}, "pnum": self.cur_pnum(),
                     "att": dict(self.dev["attached"])}
+        if name in ("ev_m2_start", "ev_m2_stop"):
+            self.m2_touch[self.cur["pnum"]] = self.m2_touch.get(self.cur["pnum"], 0) + 1
 
     def post(self, name, kwargs):
         if self.tainted:
@@ -546,13 +604,16 @@ class Harness:
         cls = cur["cls"]
         self.sync_dl("dispatch")
         effs = []
-        for mode, fn in M.EFFECTS[name]:
+        for eff in M.EFFECTS[name]:
+            mode, fn = eff[0], eff[1]
             c = cls[mode]
             tgt = cur["att"][mode]
             if c == DEAD or tgt is None:
                 continue
+            if len(eff) > 2:
+                tgt = eff[2]        # variable_player entry that names its player explicitly
             effs.append((c == LIVE, mode, fn, tgt))
-        kinds = sorted(set(cls[mode] for mode, _ in M.EFFECTS[name])) or ["-"]
+        kinds = sorted(set(cls[eff[0]] for eff in M.EFFECTS[name])) or ["-"]
         ctx.log("dispatch", name, cur["pnum"], kinds, t=self.sim.now)
         if self.m.game is None:
             ctx.probe("dispatch_no_game")
@@ -645,10 +706,13 @@ class Harness:
             self.bad("isolation", "state of a player who is not up changed: %s" % key, msg)
         if where.startswith("dispatch"):
             self.bad("effect", "%s after %s" % (key, where.split(":")[1]), msg)
-        if where.startswith("life:ball_started") or where.startswith("life:mode_m1_started"):
-            self.bad("restore", "%s at %s" % (key, where[5:]), msg)
-        if where.startswith("life:player_added") or where.startswith("life:game_"):
-            self.bad("new_game_initial", "%s at %s" % (key, where[5:]), msg)
+        ev = where.split(":", 1)[1]
+        if ev in ("player_added", "game_will_start", "game_starting", "game_started") or (
+                self.turns_in_game == 0 and not ev.startswith("mode_")):
+            self.bad("new_game_initial", "%s at %s" % (key, ev), msg)
+        if ev in ("player_turn_will_start", "player_turn_starting", "player_turn_started", "ball_will_start",
+                  "ball_starting", "ball_started") or (ev.startswith("mode_") and "start" in ev):
+            self.bad("restore", "%s at %s" % (key, ev), msg)
         self.bad("state", "%s at %s" % (key, where), msg)
 
     def check_all(self, where):
@@ -680,6 +744,15 @@ class Harness:
                 continue
             att = self.dev["attached"][mn]
             if att is None or curp is None or att != curp:
+                if self.reload_race.get(mn):
+                    self.bad("binding", "%s was restarted before the clean-up of its previous stop and runs without its devices" % mn,
+                             "%s: game mode %s was started between Mode._stopped and _mode_stopped_callback of its "
+                             "previous run; the stale clean-up removed the devices and handlers of the new run: it is "
+                             "active with devices loaded for player %r while player %r is up" % (where, mn, att, curp))
+                if self.late_start.get(mn):
+                    self.bad("binding", "%s was started while the ball was ending and outlives the ball" % mn,
+                             "%s: game mode %s was started after ball_will_end; ball end did not stop it: it is active "
+                             "with its devices loaded for player %r while player %r is up" % (where, mn, att, curp))
                 self.bad("binding", "%s live with devices loaded for another player" % mn,
                          "%s: game mode %s is active with its devices loaded for player %r while player %r is up"
                          % (where, mn, att, curp))
@@ -728,13 +801,20 @@ class Harness:
         ctx.log("life", name, curp, t=self.sim.now)
         self.phase = name
         g = self.m.game
+        if name == "ball_will_end":
+            self.ball_phase = "ending"
+        elif name in ("ball_will_start", "game_ended"):
+            self.ball_phase = "starting" if name == "ball_will_start" else "none"
         if name == "game_will_start":
             self.players = {}
             self.replica = {}
             self.snap = None
             self.game_no += 1
             self.last_turn_player = None
+            self.turns_in_game = 0
             self.progress_by_player = {}
+            self.end_m2 = {}
+            self.m2_touch = {}
             if self.game_no > 1:
                 ctx.probe("new_game")
         elif name == "player_added":
@@ -753,6 +833,7 @@ class Harness:
                 ctx.probe("turn_change")
             self.last_turn_player = num
             self.turns += 1
+            self.turns_in_game += 1
             # snapshot oracle (model-free)
             self.snap = (num, {p.vars["number"]: canon_actual(p) for p in g.player_list if p.vars["number"] != num})
             prog = set(v for v in self.progress_by_player.values())
@@ -764,6 +845,8 @@ class Harness:
                     q = p.vars["number"]
                     if q in self.snap[1]:
                         now = canon_actual(p)
+                        now.pop("gift", None)       # the machine's one intended cross-player variable (player: 1)
+                        self.snap[1][q].pop("gift", None)
                         if now != self.snap[1][q]:
                             ks = [k for k in sorted(set(now) | set(self.snap[1][q])) if now.get(k) != self.snap[1][q].get(k)]
                             self.bad("isolation", "snapshot of another player's variables changed during a turn: %s" % ks[0],
@@ -773,9 +856,10 @@ class Harness:
         elif name == "ball_started":
             if self.cfg["m2_restart"] and self.dev["attached"]["m2"] is not None:
                 ctx.probe("m2_restart_next_ball")
-        elif name == "ball_ended":
-            # at the end of a ball no game mode may keep a player's state loaded
-            pass
+        elif name == "ball_ending":
+            c = self.mode_class("m2")
+            self.end_m2[curp] = True if c == LIVE else (False if c == DEAD else None)
+            self.m2_touch[curp] = 0
         elif name == "game_will_end":
             if g is not None and g.player is not None:
                 balls = self.cfg["balls"]
@@ -792,6 +876,8 @@ class Harness:
     def fire_armed_lo(self, name, kwargs):
         if not self.tainted:
             self.check_all("life_late:" + name)
+            if name == "ball_started":
+                self.check_restart_on_next_ball()
         self._fire(name, "lo")
 
     def _fire(self, name, prio):
@@ -804,6 +890,26 @@ class Harness:
                 self.ctx.probe("hook_post")
                 for e in a["events"]:
                     self.stim(e)
+
+    def check_restart_on_next_ball(self):
+        """restart_on_next_ball is tracked per player: m2 runs in this ball iff it ran when *this* player's last ball ended."""
+        curp = self.cur_pnum()
+        g = self.m.game
+        if curp is None or g is None:
+            return
+        lst = g.player.vars.get("restart_modes_on_next_ball")
+        if lst:
+            self.bad("restore", "restart_modes_on_next_ball not consumed", "player %d starts a ball with %r pending" % (curp, lst))
+        if self.m2_touch.get(curp, 0) != 0 or self.end_m2.get(curp, False) is None:
+            return      # R-m2-window: m2 was started/stopped by hand around the ball change, or it was mid-transition
+        ended_running = self.end_m2.get(curp, False)      # a player without an earlier ball has nothing to restart
+        expect = bool(self.cfg["m2_restart"] and ended_running)
+        actual = self.dev["attached"]["m2"] == curp
+        if expect != actual:
+            self.bad("restore", "m2 restart_on_next_ball follows another player's history",
+                     "player %d's ball started with m2 %s, but m2 was %s when this player's previous ball ended "
+                     "(restart_on_next_ball=%r)" % (curp, "running" if actual else "not running",
+                                                    "running" if ended_running else "not running", self.cfg["m2_restart"]))
 
     # ------------------------------------------------------------------ progress bookkeeping (probes only)
     def progress_of(self, num):
